@@ -899,7 +899,10 @@ def tree_strategy(draw, tier):
   if kind == 'nested':
     return {'d': draw(st.dictionaries(_names, inner, min_size=1, max_size=3))}
   return {'d': draw(st.dictionaries(
-      _names, st.one_of(leaf, inner, st.lists(leaf, max_size=2).map(lambda l: {'l': l})),
+      _names, st.one_of(leaf, inner, st.lists(leaf, max_size=2).map(lambda l: {'l': l}),
+                        # tuple nodes, also the EMPTY tuple (a parameter-less
+                        # module, an empty NamedTuple state)
+                        st.lists(leaf, max_size=1).map(lambda l: {'t': l})),
       min_size=1, max_size=3))}
 
 
